@@ -416,12 +416,9 @@ func resolveUnionBatch(ctx context.Context, sources []interface{}, typ *Union, s
 		// are) instead of each fragment overwriting the previous one's result.
 		// Selections directly on the union (only __typename is allowed there)
 		// apply to every member.
-		merged := &SelectionSet{Selections: selectionSet.Selections}
-		for _, fragment := range selectionSet.Fragments {
-			if fragment.On != srcType {
-				continue
-			}
-			merged.Fragments = append(merged.Fragments, fragment)
+		merged := &SelectionSet{}
+		if err := collectUnionSelections(typ, srcType, selectionSet, merged); err != nil {
+			return nil, err
 		}
 		units, err := resolveObjectBatch(ctx, sources, gqlType, merged, destinationsByType[srcType])
 		if err != nil {
@@ -430,6 +427,35 @@ func resolveUnionBatch(ctx context.Context, sources []interface{}, typ *Union, s
 		workUnits = append(workUnits, units...)
 	}
 	return workUnits, nil
+}
+
+// collectUnionSelections gathers into out everything in a union's selection set
+// that applies to the member type srcType: the selections directly on the union,
+// the fragments on srcType, and, recursively, the contents of fragments whose
+// type condition is the union itself.
+func collectUnionSelections(typ *Union, srcType string, selectionSet *SelectionSet, out *SelectionSet) error {
+	if selectionSet == nil {
+		return nil
+	}
+	out.Selections = append(out.Selections, selectionSet.Selections...)
+	for _, fragment := range selectionSet.Fragments {
+		switch fragment.On {
+		case srcType:
+			out.Fragments = append(out.Fragments, fragment)
+		case typ.Name:
+			ok, err := ShouldIncludeNode(fragment.Directives)
+			if err != nil {
+				return err
+			}
+			if !ok {
+				continue
+			}
+			if err := collectUnionSelections(typ, srcType, fragment.SelectionSet, out); err != nil {
+				return err
+			}
+		}
+	}
+	return nil
 }
 
 // Traverses the object selections and resolves or creates work units to resolve
